@@ -658,7 +658,7 @@ func (d otherDigest) hasPrefix(s string) bool {
 	if d.odd {
 		maxLen--
 	}
-	if len(s) > maxLen || !strings.HasPrefix(s, string(d.name)) || s[len(d.name)] != '-' {
+	if len(s) > maxLen || len(s) <= len(d.name) || !strings.HasPrefix(s, string(d.name)) || s[len(d.name)] != '-' {
 		return false
 	}
 	if len(s) == maxLen {
